@@ -90,6 +90,8 @@ CHECKS['C04'] = dict(
         U('lib', 'TestVerifC04_Regress', q(), q()),
         U('lib', 'TestVerifC04_LibOrder', q(6400, 16), q(128000, 16, cap=1800)),
         U('lib', 'TestVerifC04_LibInputOrder', q(4800, 16), q(96000, 16, cap=1800)),
+        U('inpkg', 'TestVerifC04_TiebreakMeaning', q(), q(), pkg='src'),
+        U('inpkg', 'TestVerifC04_ScanMerge', q(8000, 16), q(160000, 16, cap=1800), pkg='src'),
     ])
 
 CHECKS['C05']['units'] += [
@@ -99,12 +101,18 @@ CHECKS['C05']['units'] += [
 
 CHECKS['C06'] = dict(
     title='Every input record becomes exactly one item, in order, unaltered',
-    rule='(library) n in {0..350} numbered lines x --header-lines x --tail x query x six ways of running the filter (streaming, sorted, --tac, --sync); '
-         'non-trivial = header/tail active, something to print, and more lines than the tail',
-    assumptions=[],
+    rule='(reader) byte streams of 0-14 records (lengths 0, 1, typical, and around 64 KiB / 128 KiB / 256 KiB; CR, NUL in LF mode, LF in NUL mode, multi-byte) x both delimiters x final terminator or not '
+         'x read schedules (every byte, random cuts, cuts at/around every delimiter, 64 KiB blocks, interleaved (0,nil) reads): items == record-splitter model at push time and again after the stream ended; '
+         '(chunk list) push / snapshot(tail) state machine against a list model incl. item numbering and frozen snapshots; '
+         '(library) n in {0..350} numbered lines x --header-lines x --tail x query x six ways of running the filter. '
+         'non-trivial = a record spans >= 2 reads or a delimiter is the first/last byte of a read (reader); header/tail active with more lines than the tail (library)',
+    assumptions=['input sources behave like *os.File: (n>0,nil)* then (0,EOF)', 'identical content is asserted on bytes (no decoding involved at this level)'],
     units=[
         U('lib', 'TestVerifC0607_Regress', q(), q()),
         U('lib', 'TestVerifC06_LibHeaderTail', q(4800, 16), q(96000, 16, cap=1800)),
+        U('inpkg', 'TestVerifC06_FeedSmall', q(32000, 16), q(640000, 16, cap=1800), pkg='src'),
+        U('inpkg', 'TestVerifC06_FeedLarge', q(480, 16), q(9600, 16, cap=1800), pkg='src'),
+        U('inpkg', 'TestVerifC06_ChunkListMachine', q(8000, 16), q(160000, 16, cap=1800), pkg='src'),
     ])
 
 CHECKS['C07'] = dict(
@@ -196,4 +204,41 @@ CHECKS['C16'] = dict(
         U('inpkg', 'TestVerifC16_RequestGrammar', q(48000, 16), q(960000, 16, cap=1800), pkg='src'),
         U('inpkg', 'TestVerifC16_ArbitraryBytes', q(24000, 16), q(480000, 16, cap=1800), pkg='src'),
         U('inpkg', 'TestVerifC16_ListenAddress', q(2000, 1), q(20000, 1), pkg='src'),
+    ])
+
+CHECKS['C19'] = dict(
+    title='The built-in walker lists exactly the files the walker options describe',
+    rule='directory-tree AST (depth <= 4, <= 40 entries: files, empty dirs, hidden files/dirs, symlinks to files / dirs / parents (cycles) / root / dangling, names with spaces, newlines, leading dash, non-ASCII) materialised on disk '
+         'x all 12 file/dir/follow/hidden combinations x 0-2 skip entries (base name, path, /suffix) x root given as . / relative / ./relative / trailing slash / absolute; oracle = walk model over the AST, compared as multisets. '
+         'non-trivial = the tree has a hidden directory, a directory symlink and a skip hit',
+    assumptions=['left open by the documentation and accepted either way: hidden files in visible directories when hidden is off, the own entry of a followed directory symlink, the own entry of a named root',
+                 'a followed symlink is not descended when its target is the root or a directory on the way down (loop avoidance)'],
+    units=[
+        U('inpkg', 'TestVerifC19_Walker', q(3200, 16), q(48000, 16, cap=1800), pkg='src'),
+    ])
+
+CHECKS['C08'] = dict(
+    title='Interactive results converge to a fresh filter of the current query',
+    rule='(cache) one shared chunk cache + pattern cache, 100-300 low-selectivity lines (>= 1 full chunk), sequences of 1-14 queries produced by user-like edits (append/delete/prepend a character, add ^ \' $ ! operators, OR, new term, case flip, clear) '
+         'vs a fresh cache-less evaluation of each query; (matcher) the real Matcher.Loop driven by push/Reset histories in the order the coordinator issues them, incl. a superseding request injected exactly after the k-th scanned chunk (hook): '
+         'every published list equals the sequential filter of one request, the list published at quiescence is the one of the last request. non-trivial = >= 3 related queries / requests on >= 1 full chunk',
+    assumptions=['quiescence is judged by polling for the expected final state for up to 30 s (tiny inputs; the wait is a liveness cap, the verdict is the state)',
+                 'tail/reload revisions are not exercised at this level (process level covers reload, exclude, change-nth)'],
+    units=[
+        U('inpkg', 'TestVerifC08_LatestRequestWins', q(), q(), pkg='src'),
+        U('inpkg', 'TestVerifC08_CacheMachine', q(8000, 16), q(240000, 16, cap=1800), pkg='src'),
+        U('inpkg', 'TestVerifC08_MatcherLoop', q(1600, 16, cap=600), q(32000, 16, cap=2400), pkg='src'),
+    ])
+
+CHECKS['C13'] = dict(
+    title='Loading and searching run concurrently without interfering',
+    rule='(a) a loader goroutine appending 50-2500 items with generated yield points while 1-8 snapshots (with/without --tail) are taken and scanned in 1-32 partitions with a shared cache: every snapshot is a contiguous frozen run of the input, '
+         'its items never change, every search equals the sequential filter of its snapshot; (b) exhaustive: a superseding request injected (hook) after the k-th counted chunk for every k, lists of 1..6 (quick) / 1..12 (thorough) chunks, partitions {1,3,32}, 8 query pairs: '
+         'the superseded search publishes nothing, the published list is the filter of the superseding request; (c) EventBox hand-off with 1-3 producers. Thorough tier runs (a)-(c) under the Go race detector. '
+         'non-trivial = a snapshot taken while the last chunk was partially filled (a); a cancellation strictly inside the scan (b)',
+    assumptions=['goroutine interleavings are sampled by the Go scheduler; only cancellation points are enumerated (DESIGN.md section 6)'],
+    units=[
+        U('inpkg', 'TestVerifC13_CancellationPoints', q(1, 16, cap=600), q(1, 16, cap=2400, race=True), pkg='src'),
+        U('inpkg', 'TestVerifC13_LoadWhileSearching', q(1600, 16, cap=600), q(16000, 16, cap=2400, race=True), pkg='src'),
+        U('inpkg', 'TestVerifC13_EventBox', q(3200, 8), q(32000, 16, cap=1800, race=True), pkg='util'),
     ])
